@@ -31,7 +31,7 @@ CLAIMED = {
             "The theorem is about the model; Go slices, bufio (4096-byte fills), bytes.Buffer and uint64/uint8 wrap-around are modelled (the wraps explicitly); the source is a single chunk in the theorem (other chunkings are exercised by the harness).",
             "DESIGN.md section 6 C06 and section 11.10"),
     "C07": ("Coq proof that tables, constants, CRC, header and the token format are the canonical ones, that the independent Gallina reference decodes every stream of the compressor, and that reference and library share the adaptive tree + cross-decoding against the reference checked on the golden files",
-            "Theorems for every input: C07_constants/C07_tables_*/C07_crc/C07_crc_table/C07_header (regenerated tables = canonical prefix code; table-driven CRC = bitwise CRC-16/XMODEM; canonical B2 header), C07_same_tree (one update of the reference = one update of the library on every tree satisfying the invariant), C07_reference_crc, C07_reference_decodes_format and C07_library_decodes_format (both decoders decode every well-formed token stream, whoever produced it, to its expansion), C07_lib_to_reference (the reference decodes compress(x) to x for all x). PARTIAL: the direction reference-encoder -> library is reduced by C07_library_decodes_format to the statement that the reference encoder emits the format; that statement about the reference is a Prop decided per run (Canon streams read by the library, both header modes; Canon.compress must reproduce lzhuf/testdata/*.lzh byte for byte).",
+            "Theorems for every input: C07_constants/C07_tables_*/C07_crc/C07_crc_table/C07_header (regenerated tables = canonical prefix code; table-driven CRC = bitwise CRC-16/XMODEM; canonical B2 header), C07_same_tree (one update of the reference = one update of the library on every tree satisfying the invariant), C07_reference_crc, C07_reference_decodes_format and C07_library_decodes_format (both decoders decode every well-formed token stream, whoever produced it, to its expansion), C07_lib_to_reference (the reference decodes compress(x) to x for all x), C07_reference_emits_format and C07_reference_to_lib (the library decompresses Canon.compress(x) to x for all x and every Read buffer size). Per run: both directions on generated inputs with the extracted reference, both header modes; Canon.compress must reproduce lzhuf/testdata/*.lzh byte for byte (this is what ties the Gallina reference to the canonical codec of other Winlink software).",
             "Canon.v is our transcription of LZHUF.C and part of the trusted base of this property (pinned by the golden files); 'canonical format' means the token layer of Lzhuf/Tokens.v.",
             "DESIGN.md section 6 C07 and section 11.10"),
     "C08": ("Coq proof of termination, output bound, index safety, constructor rejections and the Close verdict for all streams, chunkings and Read size sequences + correspondence on mutated streams under a watchdog with a canonical-decoder verdict oracle",
